@@ -135,6 +135,22 @@ def classify(lines):
     return out
 
 
+def _known_keywords():
+    """every keyword literal of the sources (lower case), to avoid 'mutations' that produce another valid keyword"""
+    import glob
+    kws = set()
+    for f in glob.glob("/repo/src/*.cpp") + glob.glob("/repo/src/*.h"):
+        try:
+            txt = open(f, errors="replace").read()
+        except OSError:
+            continue
+        for m in re.finditer(r'(?:get_keyval|key_lookup|get_keyval_feature)\s*\([^"]*"([A-Za-z_0-9]+)"', txt):
+            kws.add(m.group(1).lower())
+    return kws
+
+
+KNOWN_KEYWORDS = _known_keywords()
+
 BIAS_KW = ("harmonic", "harmonicwalls", "linear", "histogramrestraint", "abmd", "metadynamics", "abf", "opes_metad", "alb", "histogram")
 WRONG_CONTEXT = {
     # keywords that exist, but not in this kind of block
@@ -162,7 +178,7 @@ def block_kind(stack):
 @st.composite
 def spec_strict(draw, tier):
     sp = draw(base_spec(tier))
-    sp["mut"] = draw(st.sampled_from(["misspell", "misspell", "context", "brace_del", "brace_add", "brace_extra", "novalue", "text", "text", "fuse", "hex"]))
+    sp["mut"] = draw(st.sampled_from(["misspell", "misspell", "truncate", "truncate", "context", "brace_del", "brace_add", "brace_extra", "novalue", "text", "text", "fuse", "hex"]))
     sp["pick"] = draw(st.integers(0, 10 ** 6))
     sp["pick2"] = draw(st.integers(0, 10 ** 6))
     return sp
@@ -192,6 +208,20 @@ def check_strict(sp, ctx):
         kw = cl[k][2]
         new[k] = lines[k].replace(kw, kw + "Q", 1)
         what = "keyword '%s' misspelled as '%sQ' in %s" % (kw, kw, "/".join(cl[k][5]) or "the global scope")
+    elif mut == "truncate":
+        # the keyword loses its last 1-3 letters (a prefix of a valid keyword is not a keyword)
+        cands = [i for i, c in enumerate(cl) if c[0] in ("kv", "bare") and len(c[2]) >= 6]
+        k = choose(cands)
+        if k is None:
+            return Outcome(discard=True)
+        kw = cl[k][2]
+        cutn = 1 + sp["pick2"] % 3
+        short = kw[:-cutn]
+        # must not be a keyword of its own (e.g. "centers" vs "center...", "lowerWall" vs "lowerWalls")
+        if short.lower() in KNOWN_KEYWORDS:
+            return Outcome(discard=True)
+        new[k] = lines[k].replace(kw, short, 1)
+        what = "keyword '%s' truncated to '%s' in %s" % (kw, short, "/".join(cl[k][5]) or "the global scope")
     elif mut == "context":
         cands = [i for i, c in enumerate(cl) if c[0] in ("kv", "bare") and block_kind(c[5])] + [i for i, c in enumerate(cl) if c[0] == "open" and c[4] == 0]
         k = choose(cands)
@@ -246,7 +276,7 @@ def check_strict(sp, ctx):
     if c["rc"] == 0 and c["errbits"] == 0:
         ctxk = block_kind(cl[min(k, len(cl) - 1)][5]) or "nested"
         return Outcome(False, msg="the configuration is accepted without any error although %s" % what,
-                       sig="strict:%s:%s:%s" % (mut, ctxk, kwname.lower() if mut in ("novalue", "text", "fuse", "hex", "misspell") else ""), case_text=case)
+                       sig="strict:%s:%s:%s" % (mut, ctxk, kwname.lower() if mut in ("novalue", "text", "fuse", "hex", "misspell", "truncate") else ""), case_text=case)
     depth = cl[min(k, len(cl) - 1)][4]
     return Outcome(True, nontrivial=depth >= 2, cls=(mut, "zoo" if "zoo" in sp else "rich", "d%d" % min(depth, 3)), strata=["strict", "mut:" + mut],
                    case_text=case)
@@ -389,7 +419,7 @@ def view(spec):
     return d
 
 
-REQUIRED_STRATA = {"all": ["strict:mut:misspell", "strict:mut:context", "strict:mut:brace_del", "strict:mut:brace_add", "strict:mut:brace_extra",
+REQUIRED_STRATA = {"all": ["strict:mut:misspell", "strict:mut:truncate", "strict:mut:context", "strict:mut:brace_del", "strict:mut:brace_add", "strict:mut:brace_extra",
                            "strict:mut:novalue", "strict:mut:text", "strict:mut:fuse", "strict:mut:hex"] +
                    ["layout:rw:" + a for a in ("case", "ws", "blank", "comment", "tcomment", "crlf", "split", "join", "bool")]}
 
